@@ -54,8 +54,8 @@ Example C20_example :
 Proof. reflexivity. Qed.
 
 (* ---- lookup_dc / async_lookup_dc tied to the model (flows).  W resolve is the world of Flow/World_core.v: the DNS resolver
-   (outside the library) is a function from the queried name to the answer set; _get_highest_answer is Model/Dns.v
-   get_highest_answer (it contains a lambda, which the translator refuses: its sort key is the kernel k_srv_key above). *)
+   (outside the library) is a function from the queried name to the answer set; _get_highest_answer as a callee is Model/Dns.v
+   get_highest_answer; C20_flow_get_highest_answer below shows that this is what its own regenerated body computes. *)
 From V Require Import Prelude.PyAst Prelude.PyWorld gen.Flows Flow.World_core Proofs.Flow_core_dns.
 Theorem C20_flow_lookup_dc : forall resolve fuel domain,
   run (W resolve) fuel k_flow_lookup_dc [vopt_str domain]
@@ -72,3 +72,20 @@ Theorem C20_flow_lookup_dc_twin : forall resolve fuel domain,
   run (W resolve) fuel k_flow_async_lookup_dc [vopt_str domain] = run (W resolve) fuel k_flow_lookup_dc [vopt_str domain].
 Proof. exact flow_lookup_dc_twin. Qed.
 Print Assumptions C20_flow_lookup_dc_twin.
+
+(* ---- _get_highest_answer itself: the regenerated body (the loop building SrvRecords with the trailing dots stripped, then
+   sorted(answers, key=lambda a: (a.priority, -a.weight))[0], the sort desugared by the translator into sorted/key(answers,
+   [key for a in answers]) and given the meaning "stable insertion sort under Python's tuple order" by the world) computes the
+   model's selection function, for every answer set (an empty one: IndexError on both sides). A change of the loop, of the
+   record construction, of the sort key or of the element picked changes the regenerated term and breaks this tie. *)
+From V Require Import Proofs.Flow_core_gha.
+Theorem C20_flow_get_highest_answer : forall resolve fuel l,
+  run (W resolve) fuel k_flow_get_highest_answer [VO (OAnswer l)]
+  = (let* r := get_highest_answer l in Ok (VO (OSrv r))).
+Proof. exact flow_get_highest_answer. Qed.
+Print Assumptions C20_flow_get_highest_answer.
+(* the world's sort really sorts: its first element is the first minimiser of the keys (the fact the tie rests on) *)
+Theorem C20_sorted_head_is_first_minimiser : forall (A : Type) (l : list (A * (Z * Z))) best d,
+  hd d (isort_k (best :: l)) = pick_k best l.
+Proof. exact @hd_isort_pick. Qed.
+Print Assumptions C20_sorted_head_is_first_minimiser.
